@@ -32,7 +32,7 @@ var bitsFormats = []string{"hex", "base64", "md5", "snippet", "byte_array", "tru
 var aheadKnobs = []int{1, 7, 64, 4096, 512 * 1024}
 var precKnobs = []int{1, 16, 1024}
 
-const listProg = `limit(%d; .. | select(_is_decode_value?) | [._path, ._start, ._stop, (._buffer_root | ._path), (try (tobytes | tovalue) catch {err: .}), (try (tobits | tovalue) catch {err: .})] | tojson)`
+const listProg = `limit(%d; .. | select(_is_decode_value?) | [._path, ._start, ._stop, (._buffer_root | ._path), (try (tobytes | tovalue) catch {err: .}), (try (tobits | tovalue) catch {err: .}), (try (tobytes | to_hex) catch null)] | tojson)`
 
 func expectedRendering(bf string, bits model.Bits, leftPad bool) (any, bool) {
 	var b []byte
@@ -244,7 +244,7 @@ func (*hbits) Run(rc *core.RunCtx) *core.RunResult {
 			continue
 		}
 		var row []any
-		if err := json.Unmarshal([]byte(line), &row); err != nil || len(row) != 6 {
+		if err := json.Unmarshal([]byte(line), &row); err != nil || len(row) != 7 {
 			if faulted && li == len(lines)-1 {
 				break // a cut last line after an injected error
 			}
@@ -264,8 +264,9 @@ func (*hbits) Run(rc *core.RunCtx) *core.RunResult {
 			// a value inside a nested buffer (decompressed, reassembled): the nested root's own
 			// tobytes (its whole buffer, listed before its children) is the reference - self
 			// consistency across two evaluations; the independent check of nested content is C15's
+			hx, hasHex := row[6].(string)
 			if string(pathJSON) == string(rootJSON) {
-				if hx, ok := row[4].(string); ok && bf == "hex" && int64(stop-start)%8 == 0 {
+				if hasHex && int64(stop-start)%8 == 0 {
 					if b, err := hex.DecodeString(hx); err == nil && int64(len(b))*8 == int64(stop-start) {
 						nested[string(rootJSON)] = model.FromBytes(b, int64(len(b))*8)
 					}
@@ -273,7 +274,7 @@ func (*hbits) Run(rc *core.RunCtx) *core.RunResult {
 				continue
 			}
 			nb, ok := nested[string(rootJSON)]
-			if !ok || bf != "hex" {
+			if !ok || !hasHex {
 				res.Probes["nested_buffer_values_skipped"]++
 				continue
 			}
@@ -281,19 +282,10 @@ func (*hbits) Run(rc *core.RunCtx) *core.RunResult {
 				viol("range-outside-input", "nested-range", "value %v reports range %v..%v outside its nested buffer of %d bits", row[0], start, stop, len(nb))
 				return res
 			}
-			bits := nb.Slice(int64(start), int64(stop))
-			for k, leftPad := range []bool{true, false} {
-				got := row[4+k]
-				if m, isErr := got.(map[string]any); isErr {
-					if _, has := m["err"]; has {
-						continue
-					}
-				}
-				want, _ := expectedRendering(bf, bits, leftPad)
-				if !jsonEqual(got, want) {
-					viol("bits-differ", []string{"tobytes", "tobits"}[k]+":nested", "value %v range %v..%v inside nested buffer %s: %s is %s, the nested buffer's own bytes give %s", row[0], start, stop, rootJSON, []string{"tobytes", "tobits"}[k], firstN(fmt.Sprint(got), 200), firstN(fmt.Sprint(want), 200))
-					return res
-				}
+			wantHex, _ := expectedRendering("hex", nb.Slice(int64(start), int64(stop)), true)
+			if hx != wantHex {
+				viol("bits-differ", "tobytes:nested", "value %v range %v..%v inside nested buffer %s: tobytes is %s, the nested buffer's own bytes give %s", row[0], start, stop, rootJSON, firstN(hx, 160), firstN(fmt.Sprint(wantHex), 160))
+				return res
 			}
 			res.Probes["nested_values_checked"]++
 			continue
